@@ -686,6 +686,22 @@ def run_tie(prop, spec, tier, seed):
                                         signature="arr_nest|" + (bad[0] if bad else last),
                                         replay={"component": "array", "program": "harness/array/arr_nest.cpp", "output": out[-20:], "stderr": err[-3000:]}))
 
+    # Array<byte> as File::read() uses it (src/File.cpp is one of C14's anchors): a text-mode read of a file that reports a smaller
+    # size than it has (procfs) and of a regular file must stay inside the Array it allocates and return the content
+    from components import pathfile as _pf
+    fb, fout = _pf.build("C17")
+    if fb is None:
+        res.failures.append(Failure("infra", "file harness does not compile against the working tree", replay={"compiler": (fout or "")[-3000:]}))
+    else:
+        flines = ["file reset", "file root @", "file procread"]
+        fo, frc, ferr = lib.run_lines(fb, flines)
+        res.extra["file_read_probe"] = fo[-1] if fo else ""
+        if frc != 0 or fo[-3:] != ["ok", "ok", "b=1"]:
+            res.failures.append(Failure("violation", "File::read() (text mode, Array<byte>) on a file longer than its reported size: %s" %
+                                        (fo[-1] if fo and frc == 0 else summarize(ferr)),
+                                        signature="file procread",
+                                        replay={"component": "array", "program": "harness/file/file_harness.cpp", "lines": flines, "output": fo[-5:], "stderr": ferr[-3000:]}))
+
     nm = 0
     for cls, cases in sets.items():
         # the executable model works on lists: histories with more than 5000 elements are compared oracle <-> code only
